@@ -176,6 +176,20 @@ func (r *Report) Finish() int {
 		}
 	}
 	sort.SliceStable(r.Obligations, func(i, j int) bool { return r.Obligations[i].Key < r.Obligations[j].Key })
+	// the same rule may be evaluated by a property and by a layer it includes: keep one copy per key and status
+	{
+		var uniq []Obligation
+		seenOb := map[string]bool{}
+		for _, o := range r.Obligations {
+			k := o.Key + "|" + string(o.Status) + "|" + o.Config
+			if seenOb[k] {
+				continue
+			}
+			seenOb[k] = true
+			uniq = append(uniq, o)
+		}
+		r.Obligations = uniq
+	}
 
 	known := LoadKnownFindings(filepath.Join(VerifDir(), "KNOWN_FINDINGS.txt"))
 	suppressed := map[string]KnownFinding{}
